@@ -70,7 +70,7 @@ func VerifC06_ARP() {
 }
 
 func VerifC06_HopByHop() {
-	h := bldHopByHop(vr.U8("next"))
+	h := bldHopByHop(vr.U8("next"), true)
 	var kids [][]byte
 	for _, o := range h.Options {
 		ob, _ := o.MarshalBinary()
@@ -85,7 +85,7 @@ func VerifC06_HopByHop() {
 }
 
 func VerifC06_Routing() {
-	h := bldRouting(vr.U8("next"))
+	h := bldRouting(vr.U8("next"), true)
 	b := c06sized(h)
 	c06at(b, 4, h.Data.Bytes(), "routing-data")
 }
@@ -167,7 +167,12 @@ func VerifC06_IGMPv3GroupRecord() {
 	for _, s := range r.SourceAddresses {
 		off = c06at(b, off, s, "source")
 	}
-	vr.Assert(off == len(b), "sources-fill-record")
+	for _, w := range r.AuxData {
+		vr.Assert(off+4 <= len(b), "aux-fits")
+		vr.Assert(uint32(b[off])<<24|uint32(b[off+1])<<16|uint32(b[off+2])<<8|uint32(b[off+3]) == w, "aux-intact")
+		off += 4
+	}
+	vr.Assert(off == len(b), "sources+aux-fill-record")
 }
 
 func VerifC06_IGMPv3Report() {
